@@ -290,6 +290,7 @@ inline ParseRef parse_ref(const std::string& fmt, const std::string& input, Reso
   i128 year = 1970; bool saw_year = false;
   int mon = 1, mday = 1, hour = 0, min = 0, sec = 0, wday = 4;
   bool twelve = false, afternoon = false;
+  int tm_year = 70;  // what a delegated %y / %C / %D ... leaves behind; used only when no %Y / %E4Y was given
   int week = -1; bool week_monday = false;
   long long fs = 0;
   bool saw_off = false; int off = 0;
@@ -373,20 +374,25 @@ inline ParseRef parse_ref(const std::string& fmt, const std::string& input, Reso
       if (q >= fmt.size()) return fail("dangling modifier");
       const std::string spec = fmt.substr(f, q + 1 - f);
       const char conv = fmt[q];
-      if (!strchr("aAbBhpIjlyCDFTRrcxXntgGV", conv)) { r.dont_care = true; }
-      if (strchr("yCDFgGVjcxrRT", conv)) r.dont_care = true;  // touch tm_year / composite fields: left to strptime, not modelled
+      if (!strchr("aAbBhpIjlyCDFTRrcxXntgGVHMSdme", conv)) { r.dont_care = true; }
       used_c = true;
       std::tm t2;
       memset(&t2, 0, sizeof t2);
-      t2.tm_mon = mon - 1; t2.tm_mday = mday; t2.tm_hour = hour; t2.tm_min = min; t2.tm_sec = sec; t2.tm_wday = wday; t2.tm_year = 70;
+      t2.tm_mon = mon - 1; t2.tm_mday = mday; t2.tm_hour = hour; t2.tm_min = min; t2.tm_sec = sec; t2.tm_wday = wday; t2.tm_year = tm_year;
       const char* res = strptime(in.c_str() + p, spec.c_str(), &t2);
       if (res == nullptr) return fail("strptime");
       const size_t np = res - in.c_str();
       if (conv == 'p') { std::string tok = in.substr(p, np - p); size_t a = 0; while (a < tok.size() && is_space(tok[a])) ++a; afternoon = (tok.size() >= a + 2 && (tok[a] == 'P' || tok[a] == 'p')); }
-      if (conv == 'I' || conv == 'l') twelve = true;
-      if (conv == 'b' || conv == 'B' || conv == 'h') { mon = t2.tm_mon + 1; }
-      if (conv == 'a' || conv == 'A') wday = t2.tm_wday;
-      if (conv == 'I' || conv == 'l') hour = t2.tm_hour;
+      // which clock the LAST hour-bearing specifier used decides whether a parsed %p applies (time_zone.h: the
+      // fields are combined after the whole format has been matched)
+      if (conv == 'I' || conv == 'l' || conv == 'r') twelve = true;
+      if (conv == 'H' || conv == 'T' || conv == 'R' || conv == 'X' || conv == 'c') twelve = false;
+      // The C library changes only the fields its specifier parses or derives (t2 was pre-filled with the current
+      // values, exactly the broken-down time the library under test hands to the same function), so every field is
+      // taken back: the statement defers to the C library for these specifiers.
+      hour = t2.tm_hour; min = t2.tm_min; sec = t2.tm_sec;
+      mon = t2.tm_mon + 1; mday = t2.tm_mday; wday = t2.tm_wday; tm_year = t2.tm_year;
+      if (mon < 1 || mon > 12 || mday < 1 || mday > 31 || hour < 0 || hour > 23 || min < 0 || min > 59 || sec < 0 || sec > 61 || wday < 0 || wday > 6) r.dont_care = true;
       p = np;
       f = q + 1;
     }
@@ -396,7 +402,9 @@ inline ParseRef parse_ref(const std::string& fmt, const std::string& input, Reso
   while (p < in.size() && is_space(in[p])) ++p;
   if (p != in.size()) return fail("trailing data");
   if (saw_s) { r.ok = true; r.t = sval; r.fs = 0; return r; }
+  if (sec > 60) r.dont_care = true;
   if (sec == 60) { sec = 59; off -= 1; fs = 0; }
+  if (!saw_year) year = static_cast<i128>(tm_year) + 1900;
   if (week != -1) {
     const i128 y400 = year % 400;  // the implementation documents no range here: any year
     (void)y400;
